@@ -906,7 +906,15 @@ impl CaseRun {
 				still.push((k, p, h));
 				continue;
 			}
-			let ok = h.await.unwrap_or(false);
+			let ok = match h.await {
+				Ok(b) => b,
+				Err(e) => {
+					if e.is_panic() {
+						oracle_merge(orc, Err(format!("the parked send {p} of sub {} panicked", self.book.subs[k].sid)));
+					}
+					false
+				}
+			};
 			// the blocked call has returned: its handle of the sink is gone
 			let serving = self.conn_serving(self.book.subs[k].conn);
 			let b = &mut self.book.subs[k];
@@ -1946,8 +1954,69 @@ fn count_axes(out: &mut Out, line: &str, res: &str) {
 	}
 }
 
+/// messages of all panics so far (any thread / task); the hook keeps stderr quiet
+pub static PANICS: Mutex<Vec<String>> = Mutex::new(Vec::new());
+
+pub fn install_quiet_panic_hook() {
+	std::panic::set_hook(Box::new(|info| {
+		let msg = info.to_string().replace('\n', " ");
+		if let Ok(mut p) = PANICS.lock() {
+			p.push(msg.chars().take(300).collect());
+		}
+	}));
+}
+
+/// `exec` that survives a panic of the handler / the library: the panic becomes this line's oracle
+/// failure (`true` = the case must be abandoned, its state is no longer trustworthy).  Panics of tasks
+/// spawned by the library or the harness during the step are reported the same way.
+pub async fn exec_caught(run: &mut CaseRun, line: &str) -> (LineResult, bool) {
+	use futures_util::FutureExt;
+	let n0 = PANICS.lock().map(|p| p.len()).unwrap_or(0);
+	let r = std::panic::AssertUnwindSafe(run.exec(line)).catch_unwind().await;
+	let msgs: Vec<String> = PANICS.lock().map(|p| p[n0.min(p.len())..].to_vec()).unwrap_or_default();
+	match r {
+		Err(_) => (
+			LineResult {
+				out: "panic".into(),
+				oracle: Err(format!("the implementation panicked during this step: {}", msgs.join(" | "))),
+				nontrivial: true,
+				kind: "panic".into(),
+			},
+			true,
+		),
+		Ok(mut lr) => {
+			if !msgs.is_empty() {
+				let e = Err(format!("a task of the library / a handler panicked during this step: {}", msgs.join(" | ")));
+				oracle_merge(&mut lr.oracle, e);
+			}
+			(lr, false)
+		}
+	}
+}
+
 pub fn rt() -> tokio::runtime::Runtime {
 	tokio::runtime::Builder::new_current_thread().enable_all().start_paused(true).build().unwrap()
+}
+
+/// set a case up (server, connections, handshakes); a panic there is that case's failure.  Records the
+/// header line.
+async fn new_caught(out: &mut Out, header: &str, pf: &Profile) -> Option<CaseRun> {
+	use futures_util::FutureExt;
+	match std::panic::AssertUnwindSafe(CaseRun::new(header, pf.check_c06, pf.check_c04)).catch_unwind().await {
+		Ok(Some(run)) => {
+			out.line(header.to_string(), "case".into(), Ok(()), false);
+			Some(run)
+		}
+		Ok(None) => {
+			out.line(header.to_string(), "bad-op".into(), Ok(()), false);
+			None
+		}
+		Err(_) => {
+			let msg = PANICS.lock().ok().and_then(|p| p.last().cloned()).unwrap_or_default();
+			out.line(header.to_string(), "panic".into(), Err(format!("setting the case up panicked: {msg}")), false);
+			None
+		}
+	}
 }
 
 /// run a fixed list of lines (first = header)
@@ -1957,15 +2026,14 @@ pub fn run_fixed(out: &mut Out, lines: &[String], pf: &Profile) {
 	}
 	let rt = rt();
 	rt.block_on(async {
-		let Some(mut run) = CaseRun::new(&lines[0], pf.check_c06, pf.check_c04).await else {
-			out.line(lines[0].clone(), "bad-op".into(), Ok(()), false);
-			return;
-		};
-		out.line(lines[0].clone(), "case".into(), Ok(()), false);
+		let Some(mut run) = new_caught(out, &lines[0], pf).await else { return };
 		let mut ctx = fxhash(lines[0].split_whitespace().skip(2).collect::<Vec<_>>().join(" ").as_bytes());
 		for l in &lines[1..] {
-			let r = run.exec(l).await;
+			let (r, dead) = exec_caught(&mut run, l).await;
 			record(out, &mut ctx, l.clone(), r);
+			if dead {
+				break;
+			}
 		}
 	});
 }
@@ -1986,21 +2054,28 @@ pub fn run_generated(out: &mut Out, rng: &mut Rng, caseno: u64, mode: &str, ncon
 	let mut lines = vec![header.clone()];
 	let rt = rt();
 	rt.block_on(async {
-		let mut run = CaseRun::new(&header, pf.check_c06, pf.check_c04).await.unwrap();
-		out.line(header.clone(), "case".into(), Ok(()), false);
+		let Some(mut run) = new_caught(out, &header, pf).await else { return };
 		let mut g = Gen { next_rid: 100, next_sid: 0, used_consts: vec![], next_payload: 0, next_close: 0 };
 		let mut ctx = fxhash(header.split_whitespace().skip(2).collect::<Vec<_>>().join(" ").as_bytes());
+		let mut dead = false;
 		for _ in 0..nops {
 			let l = gen_line(rng, &run, &mut g, pf);
-			let r = run.exec(&l).await;
+			let (r, d) = exec_caught(&mut run, &l).await;
 			record(out, &mut ctx, l.clone(), r);
 			lines.push(l);
+			if d {
+				dead = true;
+				break;
+			}
 		}
-		let closing = if pf.tail { tail_lines(&run, &mut g) } else { drain_lines(&run) };
+		let closing = if dead { vec![] } else if pf.tail { tail_lines(&run, &mut g) } else { drain_lines(&run) };
 		for l in closing {
-			let r = run.exec(&l).await;
+			let (r, d) = exec_caught(&mut run, &l).await;
 			record(out, &mut ctx, l.clone(), r);
 			lines.push(l);
+			if d {
+				break;
+			}
 		}
 	});
 	out.count(&format!("cfg.mode.{mode}"));
